@@ -44,6 +44,20 @@ func (b BadgerAccess) LookupDatasetName(internalDatasetID types.InternalDatasetI
 	return result, result != ""
 }
 
+func (b BadgerAccess) LockDatasetForWrite(datasetID types.InternalDatasetID) func() {
+	v, ok := b.dsm.store.datasetsByInternalID.Load(uint32(datasetID))
+	if !ok {
+		return func() {}
+	}
+	ds := v.(*Dataset)
+	verifhook.Acquire(b.dsm.store.database, "dataset.write", ds)
+	ds.WriteLock.Lock()
+	return func() {
+		ds.WriteLock.Unlock()
+		verifhook.Release(b.dsm.store.database, "dataset.write", ds)
+	}
+}
+
 func (b BadgerAccess) IsDatasetDeleted(datasetID types.InternalDatasetID) bool {
 	return b.dsm.store.deletedDatasets[uint32(datasetID)]
 }
